@@ -10,6 +10,7 @@ pub mod clock;
 pub mod iter;
 pub mod sim;
 pub mod slice;
+pub mod sys;
 
 pub mod prelude {
     pub use crate::iter::{
